@@ -64,6 +64,8 @@ class C03(PropBase):
             prog += [('todir', 0, reg), ('nodes', reg, None)] + has_probes(reg, ns, ts) + tl_probes(reg, ns, True)
             reg += 1
         case['_nreg'] = reg
+        # the derivations must leave the source's timelines canonical too (aliasing with the derived graphs)
+        prog += tl_probes(0, ns, d)
         return prog
 
     def oracle(self, case, prog, ri):
